@@ -135,6 +135,12 @@ func (g *c18gen) window() (time.Time, time.Time) {
 	}
 	d := pick(g.r, []time.Duration{time.Nanosecond, time.Millisecond, 500 * time.Millisecond, time.Second, time.Minute, 10 * time.Minute, time.Hour, 24 * time.Hour, 7 * 24 * time.Hour, 1234567891 * time.Nanosecond})
 	end := base.Add(d)
+	switch g.r.intn(9) {
+	case 7: // an empty window: the end is the start
+		end = base
+	case 8: // a window whose end lies before its start: it selects nothing, it is not the window read backwards
+		base, end = end, base
+	}
 	switch g.r.intn(6) {
 	case 0:
 		loc := time.FixedZone("x", 3600*(g.r.intn(24)-12))
